@@ -290,7 +290,8 @@ def run(prop, tier, replay=None):
                 rep.machinery_errors.append(str(e)[:1500])
     # backtest-level stage: the same judge on programs run by the real Backtest
     BT = {"C16": ("bankrupt", (80, 1500)), "C03": ("flows", (60, 1200)), "C01": (["flat", "nested"], (40, 800)),
-          "C02": (["flat", "nested", "flows"], (40, 800)), "C07": (["flat", "nested"], (40, 800)), "C08": (["flat", "nested"], (40, 800))}
+          "C02": (["flat", "nested", "flows"], (40, 800)), "C07": (["flat", "nested"], (40, 800)), "C08": (["flat", "nested"], (40, 800)),
+          "C17": ("fi", (60, 1200))}
     if prop in BT:
         import check_bt
 
